@@ -512,8 +512,9 @@ class AsyncEventHook(EventHook):
         results = yield [
             wrapped_handler.asynq(*args) for wrapped_handler in wrapped_handlers
         ]
-        for error in filter(None, results):
-            reraise(error)
+        for error in results:
+            if error is not None:
+                reraise(error)
 
     @staticmethod
     def _create_safe_wrapper(handler):
